@@ -417,6 +417,12 @@ func c11Enumerate(tier string, yield func(any)) {
 	for reason := 0; reason < 6; reason++ {
 		yield(&c11Case{Kind: "cli", N: reason})
 	}
+	// flag spellings: each of the five flags unmentioned (default), given (true) or given as =false
+	for world := 1; world <= 3; world++ {
+		for first := 0; first < 3; first++ {
+			yield(&c11Case{Kind: "clispell", N: world, Strat: first})
+		}
+	}
 }
 
 func c11Exec(x *engine.Ctx, cc any) {
@@ -498,7 +504,103 @@ func c11Exec(x *engine.Ctx, cc any) {
 		c11Files(x, c)
 	case "cli":
 		c11CLI(x, c)
+	case "clispell":
+		c11CLISpell(x, c)
 	}
+}
+
+// c11CLISpell: the documented defaults (-m and -c on, the others off) and the flag spellings.
+func c11CLISpell(x *engine.Ctx, c *c11Case) {
+	base, err := c11GetBase()
+	if err != nil {
+		x.Cap(err.Error())
+		return
+	}
+	worlds := [][]c11Ent{nil,
+		{{Art: 1, Hash: 1, Time: 1}, {Art: 0}},                              // sub missing
+		{{Art: 1, Hash: 1, Time: 1}, {Art: 1, Hash: 2, Time: 2}},            // sub changed
+		{{Art: 1, Hash: 1, Time: 1}, {Art: 1, Hash: 1, CfgNew: 1, Time: 2}}, // sub outdated
+	}
+	ents := worlds[c.N]
+	for i := range ents {
+		ents[i].Expired = 2
+	}
+	type fl struct {
+		long, short string
+		bit         int
+		def         bool
+	}
+	flags := []fl{{"generate-missing", "m", 1, true}, {"generate-expired", "e", 2, false}, {"generate-outdated", "o", 4, false}, {"generate-changed", "c", 8, true}, {"generate-all", "a", 16, false}}
+	var n int64
+	for spell := c.Strat; spell < 243; spell += 3 {
+		var args []string
+		eff := 0
+		v := spell
+		for k, f := range flags {
+			mode := v % 3
+			v /= 3
+			on := f.def
+			switch mode {
+			case 1:
+				on = true
+				if (spell+k)%2 == 0 {
+					args = append(args, "-"+f.short)
+				} else {
+					args = append(args, "--"+f.long)
+				}
+			case 2:
+				on = false
+				if (spell+k)%2 == 0 {
+					args = append(args, "-"+f.short+"=false")
+				} else {
+					args = append(args, "--"+f.long+"=false")
+				}
+			}
+			if on {
+				eff |= f.bit
+			}
+		}
+		w := simfs.New(simfs.TickPerWrite)
+		cfgs := [][]byte{base.rootCfg, base.subCfg}
+		pems := [][]byte{base.rootPem, base.subPem}
+		for i, e := range ents {
+			artTick := int64(100 + 10*e.Time)
+			cfgTick := artTick - 1
+			if e.CfgNew == 1 {
+				cfgTick = artTick + 1
+			}
+			w.PutAt(fmt.Sprintf("e%d.yaml", i), cfgs[i], cfgTick)
+			if v := c11Variant(pems[i], e.Art, e.Hash, ""); v != nil {
+				w.PutAt(fmt.Sprintf("e%d.pem", i), v, artTick)
+			}
+		}
+		before := w.Clone()
+		res, err := drive.RunCLIArgs(w, args, "y\n")
+		if err != nil {
+			x.Cap("cli: " + err.Error())
+			return
+		}
+		x.TraceValidated(1)
+		n++
+		want, why := c11Expect(ents, []int{-1, 0}, eff)
+		changed := map[string]bool{}
+		for _, df := range simfs.Diff(before, w) {
+			changed[df] = true
+		}
+		for i := range ents {
+			if want[i] == refcfg.Either {
+				continue
+			}
+			p := fmt.Sprintf("e%d.pem", i)
+			got := changed["content:"+p] || changed["created:"+p]
+			if got != (want[i] == refcfg.Regen) {
+				x.Violation(fmt.Sprintf("C11/cli/flag-defaults world=%d entity=%d expected-regen=%v", c.N, i, want[i] == refcfg.Regen), fmt.Sprintf("arguments %v mean strategy %05b (defaults: -m and -c on): model %v (%s), file rewritten=%v; exit=%d stdout=%q", args, eff, want[i], why[i], got, res.Exit, short(res.Stdout, 300)))
+			}
+		}
+	}
+	x.Eval(n - 1)
+	x.NontrivialN(n)
+	x.Outcome("cli flag spellings")
 }
 
 // c11Alphabet: per-entity letters for the forest layer (smaller for larger forests).
@@ -784,7 +886,7 @@ func init() {
 	register(&engine.Check{
 		ID:          "C11",
 		Level:       "model_checking",
-		Rule:        "(1) db.PlanBulkUpdate on a synthetic db.Database: for an issuer/subject pair the full product of per-entity states (artifact {absent, cert+key, cert+CSR, key only, cert only} x stored hash {none, equal, different} x (certificate expired, configuration end in the future) x config older/newer than artifact) for both entities x issuer-vs-subject artifact time {<,=,>} x all 32 strategies; for every rooted forest on <=3 (quick) / <=4 (thorough) entities a 6-letter per-entity alphabet x all strict artifact-time orders + all-equal x 32 strategies (x 6 return-order permutations of roots/subscribers for n<=3). (2) the same pair states realised as files (hash line, PEM blocks, mtimes) on FsDb+simfs for all 225 artifact/hash combinations x config age x time relation x 32 strategies, followed by BulkUpdate (issuer written first, subject verifies under the issuer written in this run, nothing unplanned written). (3) the CLI binary with all 32 flag combinations on one world per reason. Oracle: the decision table transcribed from the statement with explicit don't-care cells. states = distinct abstract worlds, transitions = plans computed",
+		Rule:        "(1) db.PlanBulkUpdate on a synthetic db.Database: for an issuer/subject pair the full product of per-entity states (artifact {absent, cert+key, cert+CSR, key only, cert only} x stored hash {none, equal, different} x (certificate expired, configuration end in the future) x config older/newer than artifact) for both entities x issuer-vs-subject artifact time {<,=,>} x all 32 strategies; for every rooted forest on <=3 (quick) / <=4 (thorough) entities a 6-letter per-entity alphabet x all strict artifact-time orders + all-equal x 32 strategies (x 6 return-order permutations of roots/subscribers for n<=3). (2) the same pair states realised as files (hash line, PEM blocks, mtimes) on FsDb+simfs for all 225 artifact/hash combinations x config age x time relation x 32 strategies, followed by BulkUpdate (issuer written first, subject verifies under the issuer written in this run, nothing unplanned written). (3) the CLI binary with all 32 explicit flag combinations on one world per reason, and all 243 spellings of the five flags (unmentioned = default, given, given as =false; short and long forms) on three worlds, which pins the documented defaults (-m and -c on). Oracle: the decision table transcribed from the statement with explicit don't-care cells. states = distinct abstract worlds, transitions = plans computed",
 		Bound:       map[string]string{"forest": "quick<=3 thorough<=4", "file layer": "2-entity chain"},
 		Assumptions: []string{"comparisons 'newer than its artifact' are not decided when the entity has no artifact file (don't-care)", "expiry is explored with certificates decades away from the wall clock"},
 		Budget:      budgets(quickBudget, thoroughBudget),
